@@ -24,7 +24,9 @@ import (
 
 // TestVerifC02Consts is the "translator": it reports the constants the model depends on, taken from
 // the source of the tree under test (compile-time constant + the window expression of findOffset).
-func TestVerifC02Consts(t *testing.T) {
+func TestVerifC02Consts(t *testing.T) { vfC02Consts(t) }
+
+func vfC02Consts(t *testing.T) {
 	fset := token.NewFileSet()
 	f, err := parser.ParseFile(fset, "contentprovider.go", nil, 0)
 	if err != nil {
@@ -116,9 +118,11 @@ func vfC02RuneBytes(doc []byte, r int) int {
 }
 
 func TestVerifC02(t *testing.T) {
+	vfC02Consts(t) // the "translator" record first: prop.py regenerates coq/Generated/RangesConsts.v from it
 	r := vfNewRand(vfSeed())
 	n := vfN(60)
 	ctxb := context.Background()
+	vfC02FindCorners(t)
 
 	for it := 0; it < n; it++ {
 		// ---------------- (A) gatherMatches on generated candidate sets
@@ -245,7 +249,6 @@ func TestVerifC02(t *testing.T) {
 		// ---------------- (C) findOffset on a shard of multi-byte documents + (D) end-to-end ranges
 		var docs []Document
 		var raw [][]byte
-		var names [][]byte
 		nd := 1 + r.Intn(4)
 		plainOnly := r.Chance(10)
 		for j := 0; j < nd; j++ {
@@ -273,76 +276,22 @@ func TestVerifC02(t *testing.T) {
 			}
 			docs = append(docs, Document{Name: nm, Content: c})
 			raw = append(raw, c)
-			names = append(names, []byte(nm))
 		}
-		b, err := NewShardBuilder(&zoekt.Repository{Name: "r"})
-		if err != nil {
-			t.Fatal(err)
-		}
-		for _, d := range docs {
-			if err := b.Add(d); err != nil {
-				t.Fatal(err)
-			}
-		}
-		vfCase(cApp("G_samples", vfC02BytesList(raw), vfC02U32(b.contentPostings.runeOffsets), vfC02U32(b.contentPostings.endRunes)),
-			vfKey("samples:", raw), len(b.contentPostings.runeOffsets) > 1, []string{"G_samples", fmt.Sprint("samples=", len(b.contentPostings.runeOffsets))}, map[string]any{"docs": len(raw)})
-		var buf bytes.Buffer
-		if err := b.Write(&buf); err != nil {
-			t.Fatal(err)
-		}
-		file := &vfC03Mem{buf.Bytes()}
-		s, err := NewSearcher(file)
-		if err != nil {
-			t.Fatal(err)
-		}
-		d := s.(*indexData)
-		total := uint32(0)
-		for _, c := range raw {
-			total += uint32(len(c))
-		}
-		tailLen := uint32(4 * utf8.UTFMax * runeOffsetFrequency)
-		if uint32(len(file.data)) < d.boundariesStart+total+tailLen {
-			tailLen = uint32(len(file.data)) - d.boundariesStart - total
-		}
-		tail, _ := file.Read(d.boundariesStart+total, tailLen)
-		for _, filename := range []bool{false, true} {
-			src := raw
-			if filename {
-				src = names
-			}
-			var qs []string
+		s := vfC02FindCases(t, docs, func(filename bool, nr []int) [][2]int {
+			var qs [][2]int
 			for q := 0; q < 6; q++ {
-				idx := r.Intn(nd)
-				nr := utf8.RuneCount(src[idx])
-				rr := r.Intn(nr + 1)
-				if r.Chance(30) && nr > 0 { // shortly before / on multiples of the sampling frequency
+				idx := r.Intn(len(nr))
+				rr := r.Intn(nr[idx] + 1)
+				if r.Chance(30) && nr[idx] > 0 { // shortly before / on multiples of the sampling frequency
 					rr = (rr / runeOffsetFrequency) * runeOffsetFrequency
 					if r.Chance(50) && rr > 0 {
 						rr--
 					}
 				}
-				cp := &contentProvider{id: d, stats: &zoekt.Stats{}}
-				cp.setDocument(uint32(idx))
-				var got uint32
-				p := vfC03Recover(func() { got = cp.findOffset(filename, uint32(rr)) })
-				res := "None"
-				if !p && cp.err == nil {
-					res = cSome(cN(uint64(got)))
-				}
-				want := vfC02RuneBytes(src[idx], rr)
-				if p || cp.err != nil || int(got) != want {
-					vfOracleFail(fmt.Sprintf("findOffset:filename=%v", filename), "findOffset(r) is not the byte length of the first r runes of the document",
-						map[string]any{"docs": vfC03DocsReplay(docs), "doc": idx, "rune": rr, "got": got, "want": want, "filename": filename, "panic": p, "err": fmt.Sprint(cp.err)})
-				}
-				qs = append(qs, cTuple(cN(uint64(idx)), cN(uint64(rr)), res))
+				qs = append(qs, [2]int{idx, rr})
 			}
-			tl := tail
-			if filename {
-				tl = nil
-			}
-			vfCase(cApp("G_find", cBool(filename), cBool(d.metaData.PlainASCII), vfC02BytesList(src), cBytes(tl), cList(qs)), vfKey("find:", filename, src, qs), !d.metaData.PlainASCII,
-				[]string{"G_find", fmt.Sprint("filename=", filename), fmt.Sprint("plain=", d.metaData.PlainASCII)}, map[string]any{"docs": len(src), "queries": fmt.Sprint(qs)})
-		}
+			return qs
+		})
 
 		// ---------------- (D) end-to-end: ranges of single-substring and single-regexp queries
 		byName := map[string][]byte{}
@@ -463,6 +412,143 @@ func TestVerifC02(t *testing.T) {
 				}
 			}
 		}
+	}
+}
+
+// vfC02FindCases writes the documents into a shard, reads it back and emits
+//   - one G_samples case (the builder's rune-offset samples and endRunes),
+//   - for content and for file names one G_find case with the (document, rune offset) queries chosen by pick
+//     (pick gets the rune count of every document).
+// Oracle: findOffset(r) must be the r-th rune boundary of the document decoded on its own (C02_rune_to_byte), for
+// every r <= rune count, except the one point where no sample can exist: the end of the corpus when it holds a
+// multiple of runeOffsetFrequency runes (outside findOffset's domain: callers pass candidate START offsets; see
+// ex_corpus_end_outside_domain in coq/Props/C02.v).  That point is still compared with the model.
+func vfC02FindCases(t *testing.T, docs []Document, pick func(filename bool, nr []int) [][2]int) zoekt.Searcher {
+	var raw, names [][]byte
+	for _, d := range docs {
+		raw = append(raw, d.Content)
+		names = append(names, []byte(d.Name))
+	}
+	b, err := NewShardBuilder(&zoekt.Repository{Name: "r"})
+	if err != nil {
+		t.Fatal(err)
+	}
+	for _, d := range docs {
+		if err := b.Add(d); err != nil {
+			t.Fatal(err)
+		}
+	}
+	vfCase(cApp("G_samples", vfC02BytesList(raw), vfC02U32(b.contentPostings.runeOffsets), vfC02U32(b.contentPostings.endRunes)),
+		vfKey("samples:", raw), len(b.contentPostings.runeOffsets) > 1, []string{"G_samples", fmt.Sprint("samples=", len(b.contentPostings.runeOffsets))}, map[string]any{"docs": len(raw)})
+	var buf bytes.Buffer
+	if err := b.Write(&buf); err != nil {
+		t.Fatal(err)
+	}
+	file := &vfC03Mem{buf.Bytes()}
+	s, err := NewSearcher(file)
+	if err != nil {
+		t.Fatal(err)
+	}
+	d := s.(*indexData)
+	total := uint32(0)
+	for _, c := range raw {
+		total += uint32(len(c))
+	}
+	tailLen := uint32(4 * utf8.UTFMax * runeOffsetFrequency)
+	if uint32(len(file.data)) < d.boundariesStart+total+tailLen {
+		tailLen = uint32(len(file.data)) - d.boundariesStart - total
+	}
+	tail, _ := file.Read(d.boundariesStart+total, tailLen)
+	for _, filename := range []bool{false, true} {
+		src := raw
+		if filename {
+			src = names
+		}
+		nr := make([]int, len(src))
+		before := make([]int, len(src)+1)
+		for i := range src {
+			nr[i] = utf8.RuneCount(src[i])
+			before[i+1] = before[i] + nr[i]
+		}
+		totalRunes := before[len(src)]
+		var qs []string
+		classes := []string{"G_find", fmt.Sprint("filename=", filename), fmt.Sprint("plain=", d.metaData.PlainASCII)}
+		for _, q := range pick(filename, nr) {
+			idx, rr := q[0], q[1]
+			cp := &contentProvider{id: d, stats: &zoekt.Stats{}}
+			cp.setDocument(uint32(idx))
+			var got uint32
+			p := vfC03Recover(func() { got = cp.findOffset(filename, uint32(rr)) })
+			res := "None"
+			if !p && cp.err == nil {
+				res = cSome(cN(uint64(got)))
+			}
+			want := vfC02RuneBytes(src[idx], rr)
+			edge := before[idx]+rr == totalRunes && totalRunes%runeOffsetFrequency == 0 && !d.metaData.PlainASCII
+			if edge {
+				classes = append(classes, "corpus-end-extrapolation")
+				if int(got) > len(src[idx]) {
+					// the extrapolated sample lies before the document start: byteOff - fileStartByte wraps in uint32
+					// (the model subtracts in nat); only possible at this point outside the domain
+					continue
+				}
+			} else if p || cp.err != nil || int(got) != want {
+				vfOracleFail(fmt.Sprintf("findOffset:filename=%v", filename), "findOffset(r) is not the byte length of the first r runes of the document",
+					map[string]any{"docs": vfC03DocsReplay(docs), "doc": idx, "rune": rr, "got": got, "want": want, "filename": filename, "panic": p, "err": fmt.Sprint(cp.err)})
+			}
+			qs = append(qs, cTuple(cN(uint64(idx)), cN(uint64(rr)), res))
+		}
+		if len(qs) == 0 {
+			continue
+		}
+		tl := tail
+		if filename {
+			tl = nil
+		}
+		vfCase(cApp("G_find", cBool(filename), cBool(d.metaData.PlainASCII), vfC02BytesList(src), cBytes(tl), cList(qs)), vfKey("find:", filename, src, qs), !d.metaData.PlainASCII,
+			classes, map[string]any{"docs": len(src), "queries": fmt.Sprint(qs)})
+	}
+	return s
+}
+
+// deterministic corner shards of the rune -> byte translation (run once per test run)
+func vfC02FindCorners(t *testing.T) {
+	rep := func(s string, n int) []byte { return []byte(strings.Repeat(s, n)) }
+	all := func(filename bool, nr []int) [][2]int { // every document: 0, 1, around every multiple of the frequency, the end
+		var qs [][2]int
+		if filename {
+			return nil
+		}
+		for idx, n := range nr {
+			seen := map[int]bool{}
+			for _, rr := range []int{0, 1, 2, n - 3, n - 1, n} {
+				for k := 0; k*runeOffsetFrequency <= n+runeOffsetFrequency; k++ {
+					for _, x := range []int{rr, k*runeOffsetFrequency - 1, k * runeOffsetFrequency, k*runeOffsetFrequency + 1} {
+						if x >= 0 && x <= n && !seen[x] {
+							seen[x] = true
+							qs = append(qs, [2]int{idx, x})
+						}
+					}
+				}
+			}
+		}
+		return qs
+	}
+	shards := [][]Document{
+		// the corpus ends on a multiple of the frequency with two-byte runes (the extrapolation point)
+		{{Name: "a", Content: rep("é", 100)}},
+		{{Name: "a", Content: rep("é", 60)}, {Name: "b", Content: rep("世", 140)}, {Name: "c", Content: nil}},
+		// more than 75 four-byte runes after a sample (the 3-bytes-per-rune window of the unfixed tree)
+		{{Name: "a", Content: append(rep("😀", 76), []byte("needle")...)}},
+		{{Name: "a", Content: append(append(rep("x", 150), rep("𝔸", 99)...), []byte("needle needle")...)}},
+		// a document ending in a truncated lead byte, the next starting with continuation bytes
+		{{Name: "a", Content: append(rep("x", 100), 0xc9)}, {Name: "b", Content: append([]byte{0xa9}, []byte(" needle")...)}},
+		{{Name: "a", Content: append(rep("é", 99), 0xf0, 0x9f)}, {Name: "b", Content: append([]byte{0x98, 0x80}, rep("ß", 130)...)}, {Name: "c", Content: rep("\xbf", 101)}},
+		// sample exactly on a document start; empty documents in between
+		{{Name: "a", Content: rep("ñ", 100)}, {Name: "e", Content: nil}, {Name: "b", Content: rep("語", 201)}},
+	}
+	for _, docs := range shards {
+		vfC02FindCases(t, docs, all)
 	}
 }
 
